@@ -247,6 +247,15 @@ impl<C: NtpClock> Server<C> {
                 }
             }
             Err(PacketParsingError::DecryptError(packet)) => {
+                if packet.mode() != crate::NtpAssociationMode::Client {
+                    stats_handler.register(
+                        fallback_message_version(message),
+                        false,
+                        ServerReason::ParseError,
+                        ServerResponse::Ignore,
+                    );
+                    return Err(ServerAction::Ignore);
+                }
                 // Don't care about decryption errors when denying anyway
                 if action != ServerResponse::Deny {
                     action = ServerResponse::NTSNak;
